@@ -99,6 +99,8 @@ pub fn pick_type_cast(
         (&TypeKind::STRING, TypeDesc::ConstString) => Ok(TypeCastKind::Implicit),
         (TypeKind::Pointer(_), TypeDesc::NullPointer) => Ok(TypeCastKind::Implicit),
         (TypeKind::List(_), TypeDesc::EmptyList) => Ok(TypeCastKind::Implicit),
+        // untyped empty list cannot be spelled as C++ expression
+        (&TypeKind::VOID, TypeDesc::EmptyList) => Ok(TypeCastKind::Invalid),
         (&TypeKind::VOID, _) => Ok(TypeCastKind::Static),
         _ => Ok(TypeCastKind::Invalid),
     }
